@@ -279,6 +279,25 @@ def _check_set(cell, names, vm, ctx):
                 _fail(ctx, cn, names, "extra_lost", f"given name {n} is neither part of the vector {chosen} nor kept as a field with its values "
                       f"(fields: {list(fields)})")
                 return
+    # an option-typed column (ak.firsts, ak.mask, a list with None): the other columns keep their values where it is missing
+    if exp is not None:
+        for kopt in range(len(names)):
+            opt = {n: (ak.Array([float(cols[n][0]), None, float(cols[n][2])]) if k == kopt else ak.Array(cols[n])) for k, n in enumerate(names)}
+            ctx.evaluation()
+            try:
+                a = vector.zip(dict(opt))
+            except Exception as e:  # noqa: BLE001
+                _fail(ctx, "zip_option_column", names, "rejected_documented", f"vector.zip with an option-typed {names[kopt]} column raised "
+                      f"{type(e).__name__}: {e!s:.150}")
+                return
+            fields = ak.fields(a)
+            for n in names:
+                cand = [k for k in (n, GEN[n]) if k in fields]
+                want = ak.to_list(opt[n])
+                if not any(ak.to_list(a[k]) == want for k in cand):
+                    _fail(ctx, "zip_option_column", names, "value_changed", f"vector.zip with a missing value in column {names[kopt]}: column {n} "
+                          f"was given as {want}, the result holds { {k: ak.to_list(a[k]) for k in cand} }")
+                    return
     if nontrivial:
         ctx.nontrivial(key=list(names), sample={"names": list(names), "expected": None if exp is None else [R.sysname(exp[0]), exp[1]]})
 
